@@ -388,6 +388,26 @@ class _DropElseAfterReturn(ast.NodeTransformer):
         return node
 
 
+class _Annotate(ast.NodeTransformer):
+    """x = e  ->  x: object = e   for single-name targets inside functions."""
+
+    def __init__(self):
+        self.depth = 0
+
+    def visit_FunctionDef(self, node):
+        self.depth += 1
+        self.generic_visit(node)
+        self.depth -= 1
+        return node
+
+    def visit_Assign(self, node):
+        if self.depth and len(node.targets) == 1 and isinstance(node.targets[0], ast.Name):
+            return ast.copy_location(ast.AnnAssign(
+                target=node.targets[0], annotation=ast.Name(id='object', ctx=ast.Load()),
+                value=node.value, simple=1), node)
+        return node
+
+
 class _MergeIfs(ast.NodeTransformer):
     """if a:\n    if b: body   ->   if a and b: body          (no else branches)"""
 
@@ -472,6 +492,8 @@ def neutral_variants(text):
         out.append(('swap-conditional-expression', ast.unparse(t) + '\n'))
         t = ast.fix_missing_locations(_DropElseAfterReturn().visit(ast.parse(text)))
         out.append(('drop-else-after-return', ast.unparse(t) + '\n'))
+        t = ast.fix_missing_locations(_Annotate().visit(ast.parse(text)))
+        out.append(('annotate-local-assignments', ast.unparse(t) + '\n'))
         t = ast.fix_missing_locations(_KeysMembership().visit(ast.parse(text)))
         out.append(('keys-membership', ast.unparse(t) + '\n'))
         t = ast.fix_missing_locations(_AugExpand().visit(ast.parse(text)))
